@@ -14,6 +14,29 @@ import (
 // Parser can parse lua statements or expressions
 type Parser struct {
 	scanner Scanner
+	levels  int // current depth of nested syntactic constructs
+}
+
+// Limits that keep the recursion of the parser and of the later compilation
+// stages bounded (a Go stack overflow cannot be recovered from).
+const (
+	maxSyntaxLevels = 200     // nested expressions, blocks and functions
+	maxChainLength  = 1 << 15 // operators of one flat expression, suffixes of one prefix expression
+)
+
+// enterLevel records that a nested construct starting at t is being parsed
+// (the caller must decrement p.levels when done).
+func (p *Parser) enterLevel(t *token.Token) {
+	p.levels++
+	if p.levels > maxSyntaxLevels {
+		panic(Error{Got: t, Expected: "fewer nested syntax levels"})
+	}
+}
+
+func checkChainLength(n int, t *token.Token) {
+	if n > maxChainLength {
+		panic(Error{Got: t, Expected: "a shorter expression"})
+	}
 }
 
 type Scanner interface {
@@ -59,7 +82,7 @@ func ParseExp(scanner Scanner) (exp ast.ExpNode, err error) {
 			}
 		}
 	}()
-	parser := &Parser{scanner}
+	parser := &Parser{scanner: scanner}
 	var t *token.Token
 	exp, t = parser.Exp(parser.Scan())
 	expectType(t, token.EOF, "<eof>")
@@ -79,7 +102,7 @@ func ParseChunk(scanner Scanner) (stat ast.BlockStat, err error) {
 			}
 		}
 	}()
-	parser := &Parser{scanner}
+	parser := &Parser{scanner: scanner}
 	var t *token.Token
 	stat, t = parser.Block(parser.Scan())
 	expectType(t, token.EOF, "<eof>")
@@ -278,6 +301,8 @@ func (p *Parser) FunctionStat(*token.Token) (ast.Stat, *token.Token) {
 // consumed. Returns the token that closes the block (e.g. "end"). So the caller
 // should check that this is the right kind of closing token.
 func (p *Parser) Block(t *token.Token) (ast.BlockStat, *token.Token) {
+	p.enterLevel(t)
+	defer func() { p.levels-- }()
 	var stats []ast.Stat
 	var next ast.Stat
 	for {
@@ -332,7 +357,8 @@ func (p *Parser) Exp(t *token.Token) (ast.ExpNode, *token.Token) {
 	var opTok *token.Token
 	var stack []item
 	last := item{exp: exp}
-	for t.Type.IsBinOp() {
+	for n := 1; t.Type.IsBinOp(); n++ {
+		checkChainLength(n, t)
 		op = binopMap[t.Type]
 		opTok = t
 		exp, t = p.ShortExp(p.Scan())
@@ -357,6 +383,8 @@ func (p *Parser) Exp(t *token.Token) (ast.ExpNode, *token.Token) {
 // prefix expression or a power operation (right associatively composed). In
 // other words, any expression that doesn't contain a binary operator.
 func (p *Parser) ShortExp(t *token.Token) (ast.ExpNode, *token.Token) {
+	p.enterLevel(t)
+	defer func() { p.levels-- }()
 	var exp ast.ExpNode
 	switch t.Type {
 	case token.KwNil:
@@ -497,7 +525,8 @@ func (p *Parser) PrefixExp(t *token.Token) (ast.ExpNode, *token.Token) {
 		tokenError(t, "")
 	}
 	t = p.Scan()
-	for {
+	for n := 1; ; n++ {
+		checkChainLength(n, t)
 		switch t.Type {
 		case token.SgOpenSquareBkt:
 			var idxExp ast.ExpNode
